@@ -10,6 +10,8 @@ package parser
 // makes progress (decreases), no index is out of range.
 //@ typeinv lexer 0 <= self.pos && self.pos <= len(self.src)
 //@ sweep C10 token.go
+// reading a schema text is part of "schema handling never panics or hangs" (C16) as well
+//@ sweep C16 token.go
 
 //@ func (lexer) advance
 //@   results r
